@@ -38,6 +38,9 @@ type sconf struct {
 	RealHash   bool       `json:"realhash"` // keep the real key hash (keys must route to Bucket)
 	Crash      bool       `json:"crash"`    // snapshot every fs boundary and recover it in a child process
 	MaxTorn    int        `json:"maxtorn"`
+	// hint_index_interval in bytes (0 = default 4K): a small value gives a hint-file index entry for (almost) every item,
+	// so that groups of same-hash keys straddle index entries
+	HintInterval int `json:"hint_interval"`
 }
 
 type sop struct {
@@ -47,6 +50,7 @@ type sop struct {
 	Rev   int      `json:"rev,omitempty"`
 	Flag  int      `json:"flag,omitempty"`
 	NBlk  int      `json:"nblk,omitempty"`
+	Comp  int      `json:"comp,omitempty"` // > 0: a COMPRESSIBLE value of this many bytes (the server compresses it; id 50000+)
 	D     int      `json:"d,omitempty"`
 	C     int      `json:"c,omitempty"`
 	Rm    []string `json:"rm,omitempty"`
@@ -118,6 +122,18 @@ func (r *runner) valBytes(v int, key string, nblk int) []byte {
 	return b
 }
 
+// a compressible value: a short seeded phrase repeated up to n bytes; its id is 50000 + v*64 + n/256 (< numBase)
+func (r *runner) compBytes(v, n int) []byte {
+	phrase := []byte("the quick brown fox " + strconv.Itoa(v) + " jumps over the lazy dog; ")
+	b := make([]byte, 0, n+len(phrase))
+	for len(b) < n {
+		b = append(b, phrase...)
+	}
+	b = b[:n]
+	r.vals[string(b)] = 50000 + (v%64)*64 + (n/256)%64
+	return b
+}
+
 func (r *runner) identify(body []byte, flag uint32) int {
 	if v, ok := r.vals[string(body)]; ok {
 		return v
@@ -159,6 +175,9 @@ func (r *runner) setup() {
 	Conf.DataFileMaxStr = strconv.Itoa(256 * c.FileMaxBlk)
 	Conf.Init()
 	Conf.SplitCap = int64(c.SplitCap)
+	if c.HintInterval > 0 {
+		Conf.IndexIntervalSize = int64(c.HintInterval)
+	}
 	config.MCConf.BodyMax = int64(256 * c.BodyMaxBlk)
 	if c.DumpEager {
 		SecsBeforeDump = -1
@@ -406,7 +425,12 @@ func (r *runner) step(i int, o *sop) (e ev, stop bool) {
 			p.TS = r.ts
 			e["a"], e["rev"], e["val"], e["flag"], e["nblk"], e["vh"] = "Set", -1, 0, 0, 1, 0
 		} else {
-			body := r.valBytes(o.V, string(key), o.NBlk)
+			var body []byte
+			if o.Comp > 0 {
+				body = r.compBytes(o.V, o.Comp)
+			} else {
+				body = r.valBytes(o.V, string(key), o.NBlk)
+			}
 			p = &Payload{}
 			p.Flag = uint32(o.Flag)
 			p.Ver = int32(o.Rev)
@@ -419,7 +443,9 @@ func (r *runner) step(i int, o *sop) (e ev, stop bool) {
 			cmem.DBRL.SetData.AddSizeAndCount(p.CArray.Cap)
 			rec := &Record{key, p}
 			vid := o.V
-			if o.V < numBase {
+			if o.Comp > 0 {
+				vid = r.vals[string(body)]
+			} else if o.V < numBase {
 				nb := o.NBlk
 				if nb <= 0 {
 					nb = 1
